@@ -15,6 +15,9 @@
 //
 // (C) SignatureValue width for every (|r|,|s|) class on P-256/384/521, RSA.
 // (D) identity fields written into manifests against an independent computation.
+// (E) histories: ordered pairs / triples of signing operations in one fresh
+//
+//	process each; the later signature must be what it is when made alone.
 package main
 
 import (
@@ -64,6 +67,10 @@ func report(key, desc string, size int, replay any) {
 func timeUp() bool { return time.Now().After(deadline) }
 
 func main() {
+	if spec := os.Getenv("C19_HISTORY_CHILD"); spec != "" {
+		historyChild(spec) // one history of signing operations in a process of its own (part E)
+		return
+	}
 	run = vlib.NewRun("C19", "model_checking")
 	relicx.Quiet()
 	budget := 20 * time.Minute // a safety net far above the normal cost (about 60 s on an idle machine)
@@ -101,9 +108,22 @@ func main() {
 	}
 	parts := os.Getenv("C19_PARTS")
 	if parts == "" {
-		parts = "ABCD"
+		parts = "ABCDE"
 	}
 	setupKeys()
+	if strings.Contains(parts, "E") {
+		partE(pool)
+		fmu.Lock()
+		n := len(findings)
+		fmu.Unlock()
+		if n > 0 && parts != "E" {
+			// this harness is itself one long-lived process that signs thousands of
+			// documents, many at a time: when what a signature looks like depends on
+			// what the process signed before, the other parts have no defined subject
+			run.Capped("the history family (E) reports: parts " + strings.ReplaceAll(parts, "E", "") + " (which sign many documents in this one process) were not run")
+			parts = "E"
+		}
+	}
 	if strings.Contains(parts, "C") {
 		partC(pool)
 	}
@@ -158,10 +178,12 @@ func main() {
 		"metamorphic":     "signed fixture manifest and VSIX signature part x {rsaA,p256A} x digests (quick 2 combos each, thorough 6 each) x every single edit of every kind at every applicable site (attribute permutations: all for <=3 attributes, else every adjacent swap + reversal + rotation)",
 		"signature_width": "P-256/P-384/P-521 x (|r|,|s|) in {full, top byte zero, two top bytes zero}^2 x {enveloped, enveloping}; RSA-2048 until two signatures with a zero top byte",
 		"identity":        "6 fixture keys x {leaf-first, leaf-last chain} + leaf-only + self-signed + 22 generated subjects + 2 issuers with unusual key identifiers + 2 RSA keys chosen by token class (first hex digit zero; first octet zero), x 3 manifest inputs; token function: modulus length {1024,2048,3072,4096} x e {3,65537} x modulus 2^(bits-1)+2k+1, k<2048 (16384 public keys; tallies per token class in partD_token_function_family)",
+		"histories":       "signing operations {ClickOnce manifest fixture, VSIX fixture} x {rsaA, p256A} x {sha1, sha256, sha384, sha512} = 16; every history of length 1 (16) and every ordered pair (256; thorough: also every ordered triple, 4096), each in a child process of its own, signed one after another on one goroutine; every step's signature is judged (counts in partE_histories)",
 		"time_budget_s":   budget.Seconds(),
 	})
-	run.Rule("every member of each stated finite family is executed (documents x apex elements; signed documents x single edits; curves x (|r|,|s|) classes; keys x chain orders x subjects); distinct_nontrivial counts distinct reference canonical forms (per algorithm) over all (document, apex) pairs, plus distinct (signed document, edit kind, site) triples, (curve,|r|,|s|,mode) cases and identity cases, i.e. cases that differ in what the oracle had to produce, not repetitions. Namespace scoping is enumerated along a chain (extension subtrees: outer binding, re-binding and use at three levels) and across siblings (scope forests: one unused binding above several branches that use it at depth 0..2 or re-declare it, every order, before and after the host's own users). The public key token is judged as a fixed-width field: on the documents written by the real pipeline for signing keys of each class of token (no leading zero digit, one, a zero first octet), and on the token function itself over a family of public keys. A visibly used prefix left unbound is keyed by where it happens (an apex canonicalised inside its document / the document Reference / SignedInfo / the license Reference, which the signer digests from a parentless copy)")
+	run.Rule("every member of each stated finite family is executed (documents x apex elements; signed documents x single edits; curves x (|r|,|s|) classes; keys x chain orders x subjects); distinct_nontrivial counts distinct reference canonical forms (per algorithm) over all (document, apex) pairs, plus distinct (signed document, edit kind, site) triples, (curve,|r|,|s|,mode) cases and identity cases, i.e. cases that differ in what the oracle had to produce, not repetitions. Namespace scoping is enumerated along a chain (extension subtrees: outer binding, re-binding and use at three levels) and across siblings (scope forests: one unused binding above several branches that use it at depth 0..2 or re-declare it, every order, before and after the host's own users). The public key token is judged as a fixed-width field: on the documents written by the real pipeline for signing keys of each class of token (no leading zero digit, one, a zero first octet), and on the token function itself over a family of public keys. A visibly used prefix left unbound is keyed by where it happens (an apex canonicalised inside its document / the document Reference / SignedInfo / the license Reference, which the signer digests from a parentless copy). Histories (part E): relic signs its documents one after another in one long-lived process, so every ordered pair (thorough: triple) of signing operations over document class x key type x digest is executed sequentially in a fresh child process and every signature in it must (1) be accepted by the JDK validators (javax.xml.crypto.dsig for VSIX and for SHA-1 manifests, the step-by-step validator for all), (2) carry, on every CanonicalizationMethod / SignatureMethod / DigestMethod / Transform below a Signature element, the identifier written down in the harness from xmldsig-core, xmlenc-core, exc-c14n, RFC 4051 / RFC 6931 and OPC (VSIX) resp. the xmldsig#-namespace identifiers .NET's manifest verifier registers (ClickOnce), and (3) have the same elements, attributes and attribute values as the signature the same operation writes alone in a fresh process. Part E runs first; if it reports, the other parts (which sign in this one process) are not run")
 	run.Assume("the JDK 17 canonicaliser (Apache Santuario in java.xml.crypto) implements Canonical XML 1.0 and Exclusive XML Canonicalization 1.0; it is the oracle for canonical octets and for classifying an edit as meaning-preserving or meaning-changing")
+	run.Assume("text content of a signature (digest and signature values, signing time) legitimately differs between two executions of one operation; elements, attributes and attribute values do not (part E compares those)")
 	run.Assume("documents with a DOCTYPE are outside the family (none of the signed classes carries one)")
 	run.Assume("the public key token depends on the public key only through (modulus length, modulus octets, public exponent); the token-function family therefore uses moduli that need not be products of two primes")
 	run.Assume(".NET public key token and issuerKeyHash are defined for RSA keys; for ECDSA keys there is no documented definition, those cases are tallied, not judged")
